@@ -256,6 +256,9 @@ func cmdRun(args []string) {
 	ow.Flush()
 	req.Close()
 	obs.Close()
+	if cl, ok := e.(interface{ cleanup() }); ok {
+		cl.cleanup() // scratch directories an engine made under the system's temporary directory
+	}
 	if cur != nil {
 		cur.Close()
 		os.Remove(curPath)
